@@ -139,6 +139,35 @@ def rnd_param(rng):
             return b
 
 
+NAN_BITS = [0x7FF8000000000000, 0xFFF8000000000000, 0x7FF8000000000001, 0x7FF4000000000000,
+            0xFFF0000000000001, 0x7FFFFFFFFFFFFFFF]
+INF_BITS = [0x7FF0000000000000, 0xFFF0000000000000]
+
+
+def is_nan_bits(b):
+    return (b >> 52) & 0x7FF == 0x7FF and b & 0xFFFFFFFFFFFFF != 0
+
+
+def twin_bits(rng, b):
+    """VALUE CLASSES: a double of the same `==` / `almost_equal` / "both NaN" class as the double with
+    bit pattern `b`, but with ANOTHER bit pattern.  The signature hashes bytes, so a mutator that
+    decides "nothing changed" with a numeric comparison must be driven with exactly these values.
+      ±0.0                 `==`-equal, different bytes
+      NaN, other payload   neither `==` nor `!=`-stable: `x != x`
+      1 ulp / 1e-9 apart   equal for gene::operator== (almost_equal, relative 1e-5)"""
+    if b & 0x7FFFFFFFFFFFFFFF == 0:
+        return b ^ (1 << 63)
+    if is_nan_bits(b):
+        return rng.choice([x for x in NAN_BITS if x != b])
+    if (b >> 52) & 0x7FF == 0x7FF:          # ±inf has no twin: a NaN instead
+        return rng.choice(NAN_BITS)
+    k = rng.below(3)
+    t = b ^ 1 if k == 0 else (b + rng.between(2, 1 << 22) if k == 1 else b - rng.between(1, 1 << 22))
+    if t < 0 or t >> 63 != b >> 63 or (t >> 52) & 0x7FF == 0x7FF:
+        t = b ^ 1
+    return t
+
+
 def rnd_de(rng):
     """random double of moderate magnitude (differences and sums stay finite)"""
     b = rng.next()
@@ -329,6 +358,9 @@ class Run:
         elif not r["valid"]:
             self.violate("is_valid() is false after `%s`" % line, idx, {"kind": "invalid", "cls": cls, "op": op})
         self.obs.append((kind, r["content"], r["fresh"], idx))
+        if kind in ("ga", "de"):
+            c = r["content"].split()
+            self.state[kind][int(line.split()[2])] = {"n": int(c[1]), "v": [int(x) for x in c[2:]]}
         if r["sig"] != r["fresh"] and op != "ctor":
             # stop the cascade: an object whose cache is stale stays stale through copies
             t = line.split()
@@ -430,7 +462,31 @@ class Run:
                 s, d, b = rng.below(NM), rng.below(NM), rng.below(NM)
                 m = st["mep"][s]
                 op = rng.choice(["sig", "sig", "mutate", "mutate", "xover", "getblock", "replace", "replacebest",
-                                 "destroy", "cse", "copy", "assign", "iter", "load", "loadbad"])
+                                 "destroy", "destroy", "cse", "copy", "assign", "iter", "load", "loadbad",
+                                 "twinreplace", "twiniter"])
+                if op.startswith("twin"):
+                    # value classes: an ACTIVE parametric terminal gets a parameter that gene::operator==
+                    # cannot tell from the old one (±0.0, 1 ulp, 1e-9) or a NaN; signature cached first
+                    act = active_loci(sy, m)
+                    par = [l for l in act if sy.by_op[m["genes"][l[0] * m["cols"] + l[1]][0]]["param"]]
+                    if not par:
+                        op = "replace"
+                    else:
+                        if rng.chance(0.8):
+                            self.upd("mep", s, self.do("mep sig %d" % s, "i_mep", "signature"))
+                        l = rng.choice(par)
+                        g0 = m["genes"][l[0] * m["cols"] + l[1]]
+                        nb = rng.choice(NAN_BITS) if rng.chance(0.1) else twin_bits(rng, g0[1])
+                        g = (g0[0], nb, [])
+                        self.chk.count("valueclass:mep-%s" % ("nan" if is_nan_bits(nb) else "almost-equal"))
+                        if op == "twinreplace":
+                            dd = s if rng.chance(0.5) else d
+                            self.upd("mep", dd, self.do("mep replace %d %d %d %d %s" % (dd, s, l[0], l[1], gene_s(g)),
+                                                        "i_mep", "replace"))
+                        else:
+                            self.upd("mep", s, self.do("mep iter %d %d %s" % (s, act.index(l), gene_s(g)),
+                                                       "i_mep", "begin"))
+                        continue
                 if op == "sig":
                     self.upd("mep", s, self.do("mep sig %d" % s, "i_mep", "signature"))
                 elif op == "mutate":
@@ -448,7 +504,13 @@ class Run:
                     g = rnd_gene(sy, rng, m["best"][0], m["best"][1], m["rows"])
                     self.upd("mep", d, self.do("mep replacebest %d %d %s" % (d, s, gene_s(g)), "i_mep", "replace"))
                 elif op == "destroy":
-                    self.upd("mep", d, self.do("mep destroy %d %d %d" % (d, s, rng.below(m["rows"])), "i_mep", "destroy_block"))
+                    # boundary arguments: the root of the active code, its neighbours, first / last row
+                    row = rng.choice([m["best"][0], m["best"][0], min(m["best"][0] + 1, m["rows"] - 1),
+                                      max(m["best"][0] - 1, 0), 0, m["rows"] - 1, rng.below(m["rows"]),
+                                      rng.below(m["rows"])])
+                    if rng.chance(0.7):
+                        self.upd("mep", s, self.do("mep sig %d" % s, "i_mep", "signature"))
+                    self.upd("mep", d, self.do("mep destroy %d %d %d" % (d, s, row), "i_mep", "destroy_block"))
                 elif op == "cse":
                     self.upd("mep", d, self.do("mep cse %d %d" % (d, s), "i_mep", "cse"))
                 elif op == "copy":
@@ -471,12 +533,41 @@ class Run:
                 cls = "i_" + kind
                 s, d, b = rng.below(NS), rng.below(NS), rng.below(NS)
                 ops = ["sig", "sig", "set", "iter", "iterend", "xover", "copy", "load", "loadbad"]
-                ops += ["mutate", "mutate"] if kind == "ga" else ["assign", "assign"]
+                ops += ["mutate", "mutate"] if kind == "ga" else \
+                    ["assign", "assign", "twinset", "twiniter", "twinassign", "twinassign", "sameassign"]
                 op = rng.choice(ops)
                 val = (lambda: rng.between(-100, 100)) if kind == "ga" else \
-                      (lambda: rng.choice(special) if rng.chance(0.3) else rnd_de(rng))
+                      (lambda: rng.choice(special) if rng.chance(0.3) else
+                       (rng.choice(NAN_BITS + INF_BITS) if rng.chance(0.04) else rnd_de(rng)))
                 n = st[kind][s]["n"]
-                if op == "sig":
+                if op.startswith("twin") or op == "sameassign":
+                    # value classes: the new value is ==-equal (±0.0) / both NaN / 1 ulp away from the
+                    # value it replaces, the signature is (mostly) cached beforehand
+                    if rng.chance(0.8):
+                        self.do("de sig %d" % s, cls, "signature")
+                    cur = list(st[kind][s]["v"])
+                    zs = [i for i, x in enumerate(cur) if x & 0x7FFFFFFFFFFFFFFF == 0 or is_nan_bits(x)]
+                    if op == "sameassign":
+                        self.do("de assign %d %s" % (s, " ".join(str(x) for x in cur)), cls, "operator=")
+                        self.chk.count("valueclass:same")
+                    elif op == "twinassign":
+                        # only "equal" elements change when there are any (all of v == genome_ then)
+                        idx = [i for i in zs if rng.chance(0.7)] or (zs[:1] if zs else [rng.below(n)])
+                        for i in idx:
+                            cur[i] = twin_bits(rng, cur[i])
+                        self.do("de assign %d %s" % (s, " ".join(str(x) for x in cur)), cls, "operator=")
+                        self.chk.count("valueclass:%s" % ("eq-not-identical" if zs else "ulp"))
+                    else:
+                        i = rng.choice(zs) if zs and rng.chance(0.7) else rng.below(n)
+                        v = twin_bits(rng, cur[i])
+                        if op == "twinset":
+                            self.do("de set %d %d %d" % (s, i, v), cls, "operator[]")
+                        elif i == n - 1 and rng.chance(0.5):
+                            self.do("de iterend %d %d" % (s, v), cls, "end")
+                        else:
+                            self.do("de iter %d %d %d" % (s, i, v), cls, "begin")
+                        self.chk.count("valueclass:%s" % ("eq-not-identical" if i in zs else "ulp"))
+                elif op == "sig":
                     self.do("%s sig %d" % (kind, s), cls, "signature")
                 elif op == "set":
                     self.do("%s set %d %d %d" % (kind, s, rng.below(n), val()), cls, "operator[]")
@@ -528,18 +619,28 @@ class Run:
         if kind == "mep":
             self.state["mep"][slot] = parse_mep(c)
         elif kind in ("ga", "de"):
-            self.state[kind][slot] = {"n": int(c.split()[1])}
+            self.state[kind][slot] = {"n": int(c.split()[1]), "v": [int(x) for x in c.split()[2:]]}
         else:
             self.state[kind][slot] = {}
 
     def murmur(self, n_extra):
+        """byte strings of every length 0..64 (+ longer), also sparse ones (one non-zero byte: every
+        position of the body and of the tail matters), and pairs for hash_t::combine"""
         rng = self.rng
         lines = []
         for ln in list(range(0, 65)) + [rng.between(65, 400) for _ in range(n_extra)]:
             for _rep in range(2):
                 bs = bytes(rng.below(256) for _ in range(ln))
                 lines.append("murmur " + (bs.hex() if bs else "-"))
+            if ln:
+                lines.append("murmur " + bytes(ln).hex())
+                for pos in (range(ln) if ln <= 48 else [rng.below(ln) for _ in range(4)]):
+                    bs = bytearray(ln)
+                    bs[pos] = 1 + rng.below(255)
+                    lines.append("murmur " + bytes(bs).hex())
         lines.append("murmur " + b"hello".hex())
+        for _ in range(40):
+            lines.append("combine %d %d %d %d" % tuple(rng.choice([0, 1, 2 ** 64 - 1, rng.next()]) for _ in range(4)))
         return lines, [self.s.ask(l) for l in lines]
 
 
@@ -620,8 +721,21 @@ def shrink(exe, problem, hseed, lines, tags, budget=60):
 def replay_run(chk, exe, rp):
     """re-run the request lines of a replay file and re-apply the freshness oracle"""
     r = rp["replay"]
+    if r.get("mode") in ("pair", "free"):
+        return replay_threads(chk, r)
+    if r.get("mode") == "opcodes":
+        return run_opcodes(chk, [r["args"]])
     if "lines" not in r:
         return replay_pair(chk, exe, r)
+    if r.get("tags", {}).get("kind") == "hash-collision":
+        s = Session(exe, r["problem"], 1)
+        try:
+            a = [s.ask(l) for l in r["lines"]]
+            if len(set(a)) == 1:
+                chk.violation("replay: hash128 gives %s for both %s" % (a[0], r["lines"]), r, tags=r["tags"])
+        finally:
+            s.close()
+        return
     s = Session(exe, r["problem"], r["harness_seed"])
     try:
         for l in r["lines"]:
@@ -682,7 +796,137 @@ def replay_pair(chk, exe, r):
         s.close()
 
 
+# ---------------------------------------------------------------------------------------------
+# concurrent signature computations (harness/c03_threads.cc)
+# ---------------------------------------------------------------------------------------------
+def parse_fail(line):
+    """`FAIL handshake k=3 | A <content> | B <content> | expectedA … | gotA …` -> dict"""
+    parts = [p.strip() for p in line.split(" | ")]
+    d = {"head": parts[0]}
+    for p in parts[1:]:
+        k, _, v = p.partition(" ")
+        d[k] = v
+    for t in parts[0].split():
+        if t.startswith("k="):
+            d["k"] = int(t[2:])
+    return d
+
+
+def threads_violation(chk, what, replay, kind):
+    tags = {"kind": kind, "cls": "i_mep", "op": "signature"}
+    replay = dict(replay)
+    replay["tags"] = tags
+    chk.violation(what, replay, tags=tags)
+
+
+def run_threads(chk, quick):
+    """deterministic interleavings at the scheduling points of pack (ASan build), then free running
+    threads under ASan and under TSan.  Returns the list of things that could not be run."""
+    problems = []
+    seed = chk.seed
+    exe = C.build_harness("c03_threads", "asan")
+    trials = 300 if quick else 6000
+    rc, so, se = C.run_harness(exe, ["handshake", seed, trials], timeout=900)
+    fails = [l for l in so.splitlines() if l.startswith("FAIL")]
+    if fails:
+        d = parse_fail(fails[0])
+        if "B" in d:
+            threads_violation(
+                chk, "two threads computing signatures of DIFFERENT individuals interfere: thread A is at scheduling "
+                "point %s of its pack() while thread B computes a whole signature; A obtains %s instead of %s, B obtains "
+                "%s (single-threaded: %s).  A = `%s`, B = `%s`" % (d.get("k"), d.get("gotA"), d.get("expectedA"),
+                                                                  d.get("gotB"), d.get("expectedB"),
+                                                                  d.get("A", "")[:300], d.get("B", "")[:300]),
+                {"mode": "pair", "k": d.get("k", -1), "a": d.get("A"), "b": d.get("B")}, "thread-interference")
+        else:
+            threads_violation(chk, "signature() of a copy differs between two calls on one thread: " + fails[0][:400],
+                              {"mode": "pair", "k": -1, "a": d.get("A"), "b": d.get("A")}, "thread-interference")
+    elif rc != 0:
+        threads_violation(chk, "harness c03_threads handshake died rc=%s: %s" % (rc, (so + se)[-1500:]),
+                          {"mode": "free", "cfg": "asan", "args": ["handshake", seed, trials]}, "died")
+    else:
+        for t in so.split():
+            if t.startswith("interleavings="):
+                chk.count("threads:deterministic_interleavings", int(t.split("=")[1]))
+            if t.startswith("trials_with_points="):
+                chk.count("threads:pairs_with_scheduling_points", int(t.split("=")[1]))
+        chk.seen(("threads", "handshake", so.strip()))
+    # free running threads: any data race (TSan) / memory error (ASan) / wrong value
+    for cfg, nthr, iters in (("asan", 4, 1500 if quick else 40000), ("tsan", 2, 2000 if quick else 60000),
+                             ("tsan", 4, 1000 if quick else 30000)):
+        try:
+            ex = C.build_harness("c03_threads", cfg)
+        except RuntimeError as e:
+            problems.append("c03_threads (%s) does not build: %s" % (cfg, str(e)[-600:]))
+            continue
+        args = ["free", seed, nthr, iters]
+        rc, so, se = C.run_harness(ex, args, timeout=1500)
+        chk.count("threads:free_runs_%s" % cfg)
+        if rc == 0 and so.startswith("ok"):
+            chk.count("threads:free_signatures_%s" % cfg, int(so.split("signatures=")[1].split()[0]))
+            chk.seen(("threads", cfg, nthr, so.strip()))
+            continue
+        race = "ThreadSanitizer: data race" in se
+        loc = ""
+        for ln in se.splitlines():
+            if "vita::" in ln and "#" in ln:
+                loc = ln.strip()
+                break
+        fl = [l for l in so.splitlines() if l.startswith("FAIL")]
+        what = ("%d threads computing signatures of their OWN individuals (%s build): " % (nthr, cfg)) + \
+            ("data race reported by ThreadSanitizer at %s" % loc if race else
+             (fl[0][:500] if fl else "the process died rc=%s: %s" % (rc, se[-800:])))
+        threads_violation(chk, what, {"mode": "free", "cfg": cfg, "args": args}, "thread-interference")
+        break
+    return problems
+
+
+def run_opcodes(chk, scenarios):
+    """symbols whose opcodes differ by 2^8, 2^16 (2^24): different symbols, hence different
+    signatures for `A` / `B` and for `FADD(A, X)` / `FADD(B, X)` (harness/c03_opcodes.cc)"""
+    exe = C.build_harness("c03_opcodes", "asan")
+    for args in scenarios:
+        rc, so, se = C.run_harness(exe, args, timeout=1500)
+        chk.count("opcodes:%s" % args[0])
+        tags = {"kind": "opcode-truncation", "cls": "i_mep", "op": "pack"}
+        rp = {"mode": "opcodes", "args": list(args), "tags": tags}
+        if rc != 0 or not (so.startswith("pair") or so.startswith("csv")):
+            chk.violation("harness c03_opcodes %s: rc=%s %s" % (args, rc, (so + se)[-800:]), rp, tags={"kind": "died"})
+            continue
+        f = {}
+        for part in so.strip().split(" | "):
+            t = part.split()
+            f[t[0]] = t[1:]
+        chk.seen(("opcodes", tuple(args), so.strip()))
+        if "pair" not in f:
+            continue
+        a, b = f["pair"][0], f["pair"][1]
+        same = [k for k in ("sig", "sigF") if (k + "A") in f and f[k + "A"] == f[k + "B"]]
+        if a != b and same:
+            chk.violation("two DIFFERENT symbols (opcodes %s and %s = %s + %d) give the same signature %s to the programs "
+                          "`A` and `B`%s although they compute different values (%s vs %s): pack() does not hash "
+                          "every byte of the opcode" % (a, b, a, int(b) - int(a),
+                                                        " ".join(f["sigA"]), " and to FADD(A,X) / FADD(B,X)" if "sigF" in same else "",
+                                                        f["outA"][0], f["outB"][0]), rp, tags=tags)
+
+
+def replay_threads(chk, r):
+    if r["mode"] == "pair":
+        exe = C.build_harness("c03_threads", "asan")
+        rc, so, se = C.run_harness(exe, ["pair", r.get("k", -1)], inp="%s\n%s\n" % (r["a"], r["b"]))
+        if rc != 0 or not so.startswith("ok"):
+            chk.violation("replay: interleaved signature computations interfere: " + (so + se)[:800], r,
+                          tags=r.get("tags", {}))
+        return
+    exe = C.build_harness("c03_threads", r.get("cfg", "tsan"))
+    rc, so, se = C.run_harness(exe, r["args"], timeout=1500)
+    if rc != 0 or not so.startswith("ok"):
+        chk.violation("replay: concurrent signature computations (%s): rc=%s %s" % (r.get("cfg"), rc, (so + se)[:800]),
+                      r, tags=r.get("tags", {}))
+
+
 def run(chk, replay=None):
+    C.NPROC = min(C.NPROC, 6)          # shared machine: at most 6 compile jobs
     rng = C.SplitMix(chk.seed)
     broken = []
     quick = chk.tier == "quick"
@@ -697,13 +941,36 @@ def run(chk, replay=None):
     except Exception as e:  # Refuse or clang failure
         broken.append("translator tools/translate_mutators.py refuses the current sources: %s" % (e,))
 
+    sp_info = None
+    try:
+        import translate_sigpath
+        sp_info = translate_sigpath.emit(os.path.join(C.LEAN, "Vita", "C03", "GenSigPath.lean"))
+        chk.cov["sigpath_functions"] = len(sp_info["functions"])
+        chk.cov["sigpath_globals"] = ["%s: %s (%s%s%s)" % (f, v, st, ", thread_local" if tls else "", ", const" if c else "")
+                                      for f, v, st, tls, c in sp_info["globals"]]
+        chk.cov["sigpath_externals"] = sp_info["externals"]
+        chk.cov["gen_sigpath_changed_vs_committed"] = bool(sp_info["changed"])
+    except Exception as e:
+        broken.append("translator tools/translate_sigpath.py refuses the current sources: %s" % (e,))
+
+    pk_info = None
+    try:
+        import translate_pack
+        pk_info = translate_pack.emit(os.path.join(C.LEAN, "Vita", "C03", "GenPack.lean"))
+        chk.cov["translated_pack"] = pk_info["pack"]
+        chk.cov["translated_hashes"] = {k: pk_info[k] for k in ("mepHash", "gaHash", "deHash", "teamHash")}
+        chk.cov["translated_murmur_statements"] = pk_info["murmur_statements"]
+        chk.cov["gen_pack_changed_vs_committed"] = bool(pk_info["changed"])
+    except Exception as e:
+        broken.append("translator tools/translate_pack.py refuses the current sources: %s" % (e,))
+
     # ---- proofs --------------------------------------------------------------------------------
     drv_ok, out = C.lake_build(["c03_driver"])
     if not drv_ok:
         broken.append("driver does not build: " + C.lean_errors(out))
-    if gen_info is not None:
+    if gen_info is not None and sp_info is not None and pk_info is not None:
         ok, msg = chk.prove("Vita.C03.Props", ["Vita.C03.Props"],
-                            extra_obligations=len(gen_info["methods"]))
+                            extra_obligations=len(gen_info["methods"]) + len(sp_info["functions"]))
         if not ok:
             broken.append("theorems of Vita.C03.Props no longer check: " + msg)
 
@@ -721,12 +988,20 @@ def run(chk, replay=None):
                 replay_run(chk, exe, {"replay": json.load(open(os.path.join(cdir, f)))})
                 chk.count("corpus_files")
 
+    # ---- opcodes far apart (process-wide counter) ----------------------------------------------
+    run_opcodes(chk, [["synthetic", 8], ["synthetic", 16], ["csv", 300]] +
+                ([] if quick else [["synthetic", 20], ["csv", 3000]]))
+
+    # ---- concurrent signature computations -----------------------------------------------------
+    broken += run_threads(chk, quick)
+
     # ---- generated sessions -----------------------------------------------------------------------
     streams = {}        # packed stream -> (fresh signature, content)
     sigs = {}           # fresh signature -> (stream, content)
     tstreams, tsigs = {}, {}
     n_pairs_equal = n_streams = 0
     murmur_mismatch = model_sig_mismatch = 0
+    syn_mismatch = []
     for problem in (1, 2):
         r = Run(chk, exe, problem, rng)
         try:
@@ -746,7 +1021,8 @@ def run(chk, replay=None):
         uniq = {}
         for kind, content, fresh, idx in r.obs:
             uniq.setdefault(content, (kind, fresh, idx))
-        reqs = list(r.sy.lines) + list(uniq.keys()) + mlines
+        syn_lines = [("murmursyn" + l[6:]) if l.startswith("murmur ") else ("combinesyn" + l[7:]) for l in mlines]
+        reqs = list(r.sy.lines) + list(uniq.keys()) + mlines + syn_lines
         ans = C.run_driver("c03_driver", reqs)
         base = len(r.sy.lines)
         for j, (content, (kind, fresh, idx)) in enumerate(uniq.items()):
@@ -754,7 +1030,8 @@ def run(chk, replay=None):
             if a[0] != "pk":
                 broken.append("driver answered `%s` for `%s`" % (ans[base + j][:100], content[:200]))
                 continue
-            if kind in ("mep", "team") and (a[2] != "1" or a[3] != "1"):
+            if kind in ("mep", "team") and (a[2] != "1" or a[3] != "1") and \
+                    len([b for b in broken if b.startswith("model/implementation mismatch")]) < 3:
                 broken.append("model/implementation mismatch on a real individual (wf=%s, pack=packTree∘unfold: %s): %s"
                               % (a[2], a[3], content[:300]))
             smap, gmap = (tstreams, tsigs) if kind == "team" else (streams, sigs)
@@ -785,14 +1062,38 @@ def run(chk, replay=None):
         # ---- informational: hash function ------------------------------------------------------------
         mb = base + len(uniq)
         for j, l in enumerate(mlines):
-            if ans[mb + j].strip() != manswers[j].strip():
+            if l.startswith("murmur ") and ans[mb + j].strip() != manswers[j].strip():
                 murmur_mismatch += 1
-        chk.count("murmur_strings", len(mlines))
+            # the code AS TRANSLATED must behave as the compiled code (tie of GenPack.murmur / combine)
+            if ans[mb + len(mlines) + j].strip() != manswers[j].strip():
+                syn_mismatch.append("%s: compiled %s, translated term evaluates to %s" %
+                                    (l[:120], manswers[j].strip(), ans[mb + len(mlines) + j].strip()))
+        # every byte position feeds the hash: strings of one length never collide
+        by_len = {}
+        for j, l in enumerate(mlines):
+            if l.startswith("murmur "):
+                h = l.split()[1]
+                d = by_len.setdefault(len(h) if h != "-" else 0, {})
+                o = d.setdefault(manswers[j].strip(), h)
+                if o != h and chk.__dict__.setdefault("_c03_hc", 0) < 1:
+                    chk._c03_hc += 1
+                    chk.violation("hash128 gives the same value %s for the different byte strings %s and %s: two "
+                                  "individuals whose packed streams differ only there share a signature"
+                                  % (manswers[j].strip(), o, h),
+                                  {"problem": problem, "lines": ["murmur " + o, "murmur " + h],
+                                   "tags": {"kind": "hash-collision", "cls": "murmurhash3", "op": "hash128"}},
+                                  tags={"kind": "hash-collision", "cls": "murmurhash3", "op": "hash128"})
+        chk.count("murmur_strings", len([l for l in mlines if l.startswith("murmur ")]))
+        chk.count("combine_pairs", len([l for l in mlines if l.startswith("combine ")]))
 
     chk.cov["distinct_packed_streams"] = n_streams
     chk.cov["equal_stream_pairs_with_different_genomes"] = n_pairs_equal
     chk.cov["distinct_stream_pairs_explored"] = n_streams * (n_streams - 1) // 2
     chk.cov["hash128_vs_lean_murmur_mismatches"] = murmur_mismatch
+    chk.cov["translated_vs_compiled_mismatches"] = len(syn_mismatch)
+    if syn_mismatch:
+        broken.append("hash128 / combine as translated (GenPack) do not behave as the compiled code on %d inputs, e.g. %s"
+                      % (len(syn_mismatch), syn_mismatch[0]))
     if murmur_mismatch:
         chk.notes.append("hash function changed: vita::hash::hash128 differs from Vita.Murmur.hash128 on %d of the "
                          "random byte strings (informational: the C03 theorems are parametric in the hash)" % murmur_mismatch)
@@ -817,4 +1118,7 @@ def finish(chk, broken):
              "distinct (problem, content, operation) triples; factorisation over all distinct contents observed",
         trusted=["Lean 4.33 kernel", "tools/translate_mutators.py (clang-14 JSON AST -> effect skeletons)",
                  "harness/c03_sig.cc (serialisation through the public const interface, load() as from-scratch builder)",
+                 "tools/translate_pack.py (pack / hash / combine / hash128 -> PackSyn, USyn terms; get_block = little-endian load)",
+                 "tools/translate_sigpath.py (call-graph closure of signature() in the clang AST; std:: callees by name)",
+                 "harness/c03_threads.cc, ThreadSanitizer",
                  "g++ 12.2 ASan/UBSan"])
